@@ -157,6 +157,41 @@ func epNullRule(c *Ctx, p *Prog, rule string) {
 						}
 					}
 				}
+				// the test may sit in the callers: every call of this function is made where the field is known non-zero
+				if !guarded && depth == 0 {
+					calls, all := 0, true
+					for _, caller := range p.OwnFuncs() {
+						for _, cs := range callsInFn(caller, fn) {
+							calls++
+							okSite := false
+							for _, ce := range controllingConds(cs.Block()) {
+								v, truth := ce.Cond, ce.True
+								for {
+									if un, ok := v.(*ssa.UnOp); ok && un.Op == token.NOT {
+										v, truth = un.X, !truth
+										continue
+									}
+									break
+								}
+								bo, ok := v.(*ssa.BinOp)
+								if !ok || (bo.Op != token.EQL && bo.Op != token.NEQ) {
+									continue
+								}
+								for _, pr := range [][2]ssa.Value{{bo.X, bo.Y}, {bo.Y, bo.X}} {
+									if k, isc := constOf(pr[1]); isc && k == 0 && isEPLoad(pr[0]) && (bo.Op == token.NEQ) == truth {
+										okSite = true
+									}
+								}
+							}
+							if !okSite {
+								all = false
+							}
+						}
+					}
+					if calls > 0 && all {
+						guarded = true
+					}
+				}
 				// a value fed only into a guarded computation further down is not decided here
 				switch {
 				case guarded:
